@@ -513,7 +513,7 @@ def _discharge_staged(texts, timeout_s):
                    "cone1", "cone1+opt"]
     last_full = None
     candidate = None
-    for budget, use_cvc5 in ((min(2, timeout_s), False), (timeout_s, True)):
+    for budget, use_cvc5 in ((min(4, timeout_s), False), (timeout_s, True)):
         for k in prove_order:
             if k not in texts:
                 continue
@@ -557,7 +557,7 @@ def discharge_all(obligs, timeout_s=10, workers=16):
     n = len(obligs)
     results = [None] * n
     first = [to_smt2(o[0], o[2]) for o in obligs]
-    short = min(2, timeout_s)
+    short = min(4, timeout_s)
     with ThreadPoolExecutor(max_workers=workers) as ex:
         r1 = list(ex.map(lambda t: run_one(t, short, use_cvc5=False), first))
     todo = []
